@@ -67,12 +67,13 @@ theorem dirsNodes_noSelSet (ds : List Dir) : ∀ n ∈ dirsNodes ds, n.isSelSet 
 theorem varDefsNodes_noSelSet (vs : List VarDef) : ∀ n ∈ vs.flatMap varDefNodes, n.isSelSet = false := by
   intro n h
   simp only [List.mem_flatMap, varDefNodes, List.mem_cons, List.mem_append, List.not_mem_nil, or_false] at h
-  obtain ⟨v, _, rfl | h | rfl⟩ := h
+  obtain ⟨v, _, rfl | h | rfl | h⟩ := h
   · rfl
   · cases hd : v.default with
     | none => rw [hd] at h; cases h
     | some dv => rw [hd] at h; exact valueNodes_noSelSet dv n h
   · rfl
+  · exact dirsNodes_noSelSet _ n h
 
 theorem mem_selsNodes_of_mem {x : Sel} {xs : List Sel} (hx : x ∈ xs) : ∀ n ∈ selNodes x, n ∈ selsNodes xs := by
   induction xs with
